@@ -492,8 +492,11 @@ def run(model, col, tier):
     mk = [c for c in ast.walk(cv) if isinstance(c, ast.Call) and last_attr(c) == "CreateConstant"]
     from ..sem import local_env, rtext
 
-    cv_env = {k: v for k, v in local_env(cv).items() if k != "constant"}
-    col.check(bool(mk) and [rtext(a, cv_env) for a in mk[0].args] == ["ci.Type", "constant"], "R02.5", f"{OCC}::v_CastInstruction new constant", "the folded constant has the cast's target type", None, OCC, cv)
+    cip_ = cv.args.args[1].arg
+    # the value variable: the local that starts as <cast>.Value.Value and is re-bound by the folding arithmetic
+    valvars = {n.targets[0].id for n in ast.walk(cv) if isinstance(n, ast.Assign) and isinstance(n.targets[0], ast.Name) and rtext(n.value, local_env(cv)) == f"{cip_}.Value.Value"}
+    cv_env = {k: v for k, v in local_env(cv).items() if k not in valvars}
+    col.check(bool(mk) and len(mk[0].args) == 2 and rtext(mk[0].args[0], cv_env) == f"{cip_}.Type" and (unparse(mk[0].args[1]) in valvars or rtext(mk[0].args[1], cv_env).startswith(("math.floor(", "abs(", "float(", "int("))), "R02.5", f"{OCC}::v_CastInstruction new constant", "the folded constant has the cast's target type", None, OCC, cv)
     # the replacement is, on every path, the constant just created in the cast's own function
     for c_ in [c for c in ast.walk(cv) if isinstance(c, ast.Call) and last_attr(c) == "Replace" and len(c.args) == 2]:
         a1 = c_.args[1]
@@ -502,7 +505,7 @@ def run(model, col, tier):
         col.check(good_src, "R02.5", f"{OCC}::v_CastInstruction replacement provenance", "the replacement is the result of <cast's function>.CreateConstant(...)",
                   f"the replacement `{unparse(a1)}` can come from {[unparse(s_)[:40] for s_ in srcs]}: a constant that was not created in the cast's own function has a reference of another function", OCC, c_)
     rpc = [c for c in ast.walk(cv) if isinstance(c, ast.Call) and last_attr(c) == "Replace"]
-    col.check(bool(rpc) and unparse(rpc[0].args[0]) == "ci", "R02.5", f"{OCC}::v_CastInstruction replaces the cast", "the cast instruction is replaced by the constant", None, OCC, cv)
+    col.check(bool(rpc) and unparse(rpc[0].args[0]) == cip_, "R02.5", f"{OCC}::v_CastInstruction replaces the cast", "the cast instruction is replaced by the constant", None, OCC, cv)
     guard = [n for n in ast.walk(cv) if isinstance(n, ast.If) and "isinstance" in unparse(n.test) and "ConstantValue" in unparse(n.test)]
     col.check(bool(guard), "R02.5", f"{OCC}::v_CastInstruction only constants", "only casts of constants are folded", "the fold is not restricted to constant operands", OCC, cv)
     # ---------------- R02.6 ------------------------------------------------------
